@@ -159,6 +159,16 @@ def run(ck):
                     ck.finding('C15.R2', ENC + 'check_label_re_use', 'no-reset-after-max', 'a full label is sent after max consecutive re-uses without resetting the counter')
             else:
                 ck.discharged += 1
+            # R2: an explicit re-use label passed by the caller goes out as a re-use packet, not as a packet carrying the full
+            # label: it must not restart the run of consecutive re-uses (else N substitutions, one explicit re-use, N more .. never
+            # show the full label again)
+            # (a path that found Some(ReUse) == last_label is excluded by the invariant of R3: last_label is never Some(ReUse))
+            if rv[0] == 'enum' and len(rv[1]) == 1 and rv[1][0][0] == c.vr and not any(w.facts.get(k) is True for k in eqkeys):
+                ck.obligations += 1
+                if w.store.entails(le(cur0, curF)):
+                    ck.discharged += 1
+                else:
+                    ck.finding('C15.R2', ENC + 'check_label_re_use', 'reuse-packet-restarts-count', 'a label passed as re-use (sent as a re-use packet) lowers re_current_consecutive: more than the configured number of consecutive re-use packets can follow without a full label')
             # R3: what may be remembered
             ok_last = (same_or_refined(last0, lastF, w) or is_none(lastF)
                        or is_some_of(lastF, lambda p: p[0] == 'enum' and set(x for x, _ in p[1]) <= {c.v6, c.v3} and same_or_refined(param0, p, w)))
